@@ -301,6 +301,27 @@ func MakePkt(kind string) *astits.Packet {
 			AdaptationField: &astits.PacketAdaptationField{HasTransportPrivateData: true}, Payload: append([]byte{0, 0, 1, 0xe0, 0, 0, 0x80, 0, 0}, bytes.Repeat([]byte{0x44}, 170)...)}
 	case "big": // payload one byte too large
 		return &astits.Packet{Header: astits.PacketHeader{PID: 0x300, HasPayload: true}, Payload: make([]byte, 185)}
+	case "staleaf": // reused struct: adaptation_field flag cleared, the struct still attached; the payload fills the packet
+		return &astits.Packet{Header: astits.PacketHeader{PID: 0x300, HasPayload: true, ContinuityCounter: 4},
+			AdaptationField: &astits.PacketAdaptationField{HasPCR: true, PCR: cr(9, 9), StuffingLength: 7}, Payload: bytes.Repeat([]byte{0x21}, 184)}
+	case "fitpriv", "bigpriv": // adaptation field with 20 bytes of private data + payload: exact fit / one byte too many
+		pd := bytes.Repeat([]byte{0x66}, 20)
+		n := 161
+		if kind == "bigpriv" {
+			n = 162
+		}
+		return &astits.Packet{Header: astits.PacketHeader{PID: 0x300, HasAdaptationField: true, HasPayload: true, ContinuityCounter: 5},
+			AdaptationField: &astits.PacketAdaptationField{HasTransportPrivateData: true, TransportPrivateData: pd, TransportPrivateDataLength: len(pd)}, Payload: bytes.Repeat([]byte{0x22}, n)}
+	case "fitpcrext", "bigpcrext": // PCR + OPCR + splice countdown + full extension + payload: exact fit / one byte too many
+		n := 184 - (2 + 6 + 6 + 1 + 12)
+		if kind == "bigpcrext" {
+			n++
+		}
+		return &astits.Packet{Header: astits.PacketHeader{PID: 0x300, HasAdaptationField: true, HasPayload: true, ContinuityCounter: 6},
+			AdaptationField: &astits.PacketAdaptationField{HasPCR: true, PCR: cr(1, 1), HasOPCR: true, OPCR: cr(2, 2), HasSplicingCountdown: true, SpliceCountdown: 3,
+				HasAdaptationExtensionField: true, AdaptationExtensionField: &astits.PacketAdaptationExtensionField{
+					HasLegalTimeWindow: true, LegalTimeWindowIsValid: true, LegalTimeWindowOffset: 0x1234, HasPiecewiseRate: true, PiecewiseRate: 0x2abcde,
+					HasSeamlessSplice: true, SpliceType: 9, DTSNextAccessUnit: cr(0x1_2345_6789, 0)}}, Payload: bytes.Repeat([]byte{0x23}, n)}
 	case "af252": // adaptation field that cannot fit
 		return &astits.Packet{Header: astits.PacketHeader{PID: 0x300, HasAdaptationField: true, HasPayload: true},
 			AdaptationField: &astits.PacketAdaptationField{StuffingLength: 250}, Payload: []byte{1, 2, 3}}
